@@ -8,7 +8,7 @@
   uninterpreted environment call: fresh symbolic result of the MIR return type + an entry in the path's call trace.
 * an unknown MIR construct raises MirError (check BROKEN), never a silent skip.
 """
-import re, time
+import os, re, time
 import z3
 from vlib import cross
 
@@ -334,6 +334,8 @@ class Engine:
         self.havoc_mut = havoc_mut
         self.assume_ok = [re.compile(x) if isinstance(x, str) else x for x in assume_ok]
         self.solver = z3.Solver()
+        self.query_timeout_ms = int(os.environ.get('VERIF_QUERY_TIMEOUT_MS', '300000'))     # a query that does not return is `unknown` = BROKEN, never a pass
+        self.solver.set('timeout', self.query_timeout_ms)
         self.queries = 0
         self.cache_hits = 0
         self._pcsets = {}
@@ -451,6 +453,7 @@ class Engine:
         self.queries += 1
         t0 = time.time()
         s = z3.Solver()
+        s.set('timeout', self.query_timeout_ms)
         for c in pc:
             s.add(c)
         s.add(z3.Not(claim))
